@@ -111,8 +111,11 @@ def _nyquist_zero(I, data, axes):
     return data
 
 
-def resample_claim(shape, axes, out_lens, kind="real", updown=False, use_factors=False):
+def resample_claim(shape, axes, out_lens, kind="real", updown=False, use_factors=False, factors=None):
+    """factors: explicit resampling factors whose product with the axis length is not an integer (the output length is whatever
+    the code rounds to; extent and centre must still be preserved with that length)"""
     def claim(I):
+        nonlocal out_lens
         with I.patch(dsmod, valmod, overrides=_over()):
             ds, data, origin, sampling = _mk(I, shape, kind)
             if updown:
@@ -124,7 +127,10 @@ def resample_claim(shape, axes, out_lens, kind="real", updown=False, use_factors
                 back = up.fourier_resample(out_shape=tuple(shape[a] for a in axes), axes=tuple(axes))
                 return [Rel("up_then_down_identity", back.array, data, tol=1e-9),
                         Rel("up_then_down_calibration", [back.sampling, back.origin], [sampling, origin], tol=1e-9)]
-            if use_factors:
+            if factors is not None:
+                out = ds.fourier_resample(factors=tuple(factors), axes=tuple(axes))
+                out_lens = tuple(out.array.shape[a] for a in axes)
+            elif use_factors:
                 out = ds.fourier_resample(factors=tuple(o / shape[a] for a, o in zip(axes, out_lens)), axes=tuple(axes))
             else:
                 out = ds.fourier_resample(out_shape=tuple(out_lens), axes=tuple(axes))
@@ -215,6 +221,10 @@ def cases(tier):
     out.append(("resample_complex[3x2->2x4]", resample_claim((3, 2), (0, 1), (2, 4), kind="complex"), dict(logic="QF_LRA")))
     out.append(("resample_factors[4->2]", resample_claim((4,), (0,), (2,), use_factors=True), dict(logic="QF_LRA")))
     out.append(("resample_factors[2x3->4x6]", resample_claim((2, 3), (0, 1), (4, 6), use_factors=True), dict(logic="QF_LRA")))
+    # factors for which length * factor is not an integer: the output length is rounded, the calibration must follow the length
+    out.append(("resample_factors[7 * 0.5]", resample_claim((7,), (0,), None, factors=(0.5,)), dict(logic="QF_LRA")))
+    out.append(("resample_factors[3 * 1.5]", resample_claim((3,), (0,), None, factors=(1.5,)), dict(logic="QF_LRA")))
+    out.append(("resample_factors[3x5 * (0.5, 0.7)]", resample_claim((3, 5), (0, 1), None, factors=(0.5, 0.7)), dict(logic="QF_LRA")))
     ud = [((2,), (0,), (4,)), ((4,), (0,), (8,)), ((3,), (0,), (4,)), ((4, 2), (0, 1), (5, 4)), ((3, 4), (0, 1), (4, 6)),
           ((5,), (0,), (6,)), ((6,), (0,), (7,))]
     for sh, ax, ol in (ud if not quick else ud[:5]):
@@ -241,7 +251,7 @@ def run(check, tier):
                         symbolic="all array elements (real or complex) in [-1,1], origin in [-5,5], sampling in [0.1,4]")
     check.assumptions += ["floating point is modelled as exact real arithmetic", "NumPy functions behave as the symbolic library "
                           "model says (validated on every run against real NumPy at random inputs)"]
-    check.outside += ["4-D arrays (same code path)", "rounding of round(shape*factor) for non-representable factors", "integer dtypes"]
+    check.outside += ["4-D arrays (same code path)", "integer dtypes"]
     check.engines.add("symnum + z3 " + __import__("z3").get_version_string())
     decide_many(check, [(n, c, dict(o, key=n.split("[")[0])) for n, c, o in cases(tier)],
                 timeout_s=60 if tier == "quick" else 300, validate=1 if tier == "quick" else 3)
